@@ -17,8 +17,8 @@ use std::sync::mpsc::{channel, Receiver, RecvTimeoutError};
 use std::sync::Mutex;
 use std::time::Duration;
 
-pub const CASE_TIMEOUT_MS: u64 = 1500;
-pub const PARENT_TIMEOUT_MS: u64 = 15000;
+pub const CASE_TIMEOUT_MS: u64 = 4000;
+pub const PARENT_TIMEOUT_MS: u64 = 30000;
 pub const MEM_LIMIT: u64 = 6 << 30;
 
 // ---------------------------------------------------------------- worker side
